@@ -201,6 +201,24 @@ DecShift(units, q, e, sh) ==
 Decode(units, e) == IF Shifting(e) THEN DecShift(units, 1, e, FALSE)
                     ELSE SeqX!FlattenSeq([q \in 1..Len(units) |-> DecodeUnit(units[q], e, q = 1)])
 
+\* ------------------------------------------------------------------ kinds of sink
+\* PDFConverter._is_binary_stream decides from the sink's `mode` attribute (a file) or its type (StringIO / BytesIO).
+\* ModeOf is the mode string as Python REPORTS it for a file opened with the given mode: "w+b" reads back as "rb+",
+\* "a+b" as "ab+", "x+b" as "xb+"; tempfile.TemporaryFile() / NamedTemporaryFile() are "rb+" files.
+SinkKindsAll == {"StringIO", "BytesIO", "wb", "w+b", "ab", "a+b", "xb", "x+b", "TemporaryFile", "w", "w+", "a"}
+MemorySinks == {"StringIO", "BytesIO"}
+ModeOf(kind) == CASE kind = "wb" -> <<"w", "b">> [] kind = "w+b" -> <<"r", "b", "+">> [] kind = "ab" -> <<"a", "b">>
+                  [] kind = "a+b" -> <<"a", "b", "+">> [] kind = "xb" -> <<"x", "b">> [] kind = "x+b" -> <<"x", "b", "+">>
+                  [] kind = "TemporaryFile" -> <<"r", "b", "+">> [] kind = "w" -> <<"w">> [] kind = "w+" -> <<"w", "+">>
+                  [] kind = "a" -> <<"a">> [] OTHER -> <<>>
+\* what the sink is: it takes bytes
+TakesBytes(kind) == kind \in {"BytesIO", "wb", "w+b", "ab", "a+b", "xb", "x+b", "TemporaryFile"}
+\* what the converter takes it for; "ModeEndsWithB" (a seeded change): the mode is tested with endswith("b")
+SeenBinary(kind, dev) ==
+  IF kind \in MemorySinks THEN kind = "BytesIO"
+  ELSE LET m == ModeOf(kind) IN
+       IF "ModeEndsWithB" \in dev THEN m[Len(m)] = "b" ELSE \E q \in 1..Len(m) : m[q] = "b"
+
 \* ------------------------------------------------------------------ reference 1: the text of the hierarchy
 \* in-order concatenation of the text of the leaves, one LF after each text box, one FF after each page;
 \* the grouping tree (`layout`) is not part of the hierarchy's children
